@@ -194,7 +194,7 @@ func hasMergeKey(d *dv) bool {
 	return false
 }
 
-func c09reparse(leg string, data []byte, c sx.S, j1 string, kinds1 string, epa bool) {
+func c09reparse(leg string, data []byte, c sx.S, j1 string, kinds1 string, epa bool, proj1 string) {
 	mergeKey := strings.Contains(j1, `"\u003c\u003c":`) && leg == "yaml"
 	p2, err := pipeline.Parse(bytes.NewReader(data))
 	if err != nil && !warning.Is(err) {
@@ -224,6 +224,18 @@ func c09reparse(leg string, data []byte, c sx.S, j1 string, kinds1 string, epa b
 			cls = "reparse-yaml-merge-key"
 		}
 		oracleFail("C09", cls, c, fmt.Sprintf("normal form is not a fixpoint over the %s leg:\nfirst : %s\nsecond: %s\nvia   : %s", leg, j1, j2, data))
+		return
+	}
+	// same field values, read off the Go values directly (not through the library's marshallers)
+	if pr2 := projPipeline(p2); pr2 != proj1 {
+		cls := "reparse-" + leg + "-values-differ"
+		if epa {
+			cls = "reparse-empty-primary-with-alias"
+		}
+		if mergeKey {
+			cls = "reparse-yaml-merge-key"
+		}
+		oracleFail("C09", cls, c, fmt.Sprintf("the pipeline re-parsed from its %s marshalling has different field values:\nfirst : %s\nsecond: %s\nvia   : %s", leg, proj1, pr2, data))
 		return
 	}
 	stat("C09", "leg-"+leg+"-ok")
@@ -282,7 +294,7 @@ func init() {
 					}
 				}
 			}
-			c09reparse("json", jb, c, j1, kinds, emptyPrimaryWithAlias(d))
+			c09reparse("json", jb, c, j1, kinds, emptyPrimaryWithAlias(d), projPipeline(p))
 			// the YAML-leg exclusion applies to the strings of the parsed pipeline (commands are joined with newlines)
 			var outv any
 			json.Unmarshal(jb, &outv)
@@ -306,7 +318,7 @@ func init() {
 					if !bytes.Equal(yb, yb2) {
 						oracleFail("C09", "yaml-nondeterministic", c, "two YAML marshallings differ")
 					}
-					c09reparse("yaml", yb, c, j1, kinds, emptyPrimaryWithAlias(d))
+					c09reparse("yaml", yb, c, j1, kinds, emptyPrimaryWithAlias(d), projPipeline(p))
 					// model comparison over the YAML leg: the value tree of the emitted YAML (member order
 					// forgotten) and the JSON of its re-parse. A key spelled << does not survive yaml.v3's
 					// emitter (known finding F7) and is left to the oracle above.
